@@ -248,7 +248,11 @@ func GetAttr(v Value, attr Value, args ...Value) (Value, error) {
 			}
 		}
 	case reflect.Map:
-		retval = r.MapIndex(reflect.ValueOf(attr))
+		// MapIndex panics on a key that is nil or of another type than the map's keys;
+		// such a key simply is not in the map.
+		if key := reflect.ValueOf(attr); key.IsValid() && key.Type().AssignableTo(r.Type().Key()) {
+			retval = r.MapIndex(key)
+		}
 	case reflect.Slice, reflect.Array:
 		index := int(CoerceNumber(attr))
 		if index >= 0 && index < r.Len() {
